@@ -201,3 +201,25 @@ theorem C12_foreign_character_rejected (c : Codec) (alg s : String) (ch : Char) 
 
 example : B64.val '=' = none ∧ B64.val '+' = none ∧ B64.val '/' = none ∧ B64.val ' ' = none ∧
     B64.val '~' = none := by decide
+
+/-- **a disclosure string whose length is 1 modulo 4 is rejected** — a dangling sextet carries fewer
+than eight bits, so no byte string has that spelling; `Disclosure::from_base64` fails at its first
+step. -/
+theorem C12_dangling_character_rejected (c : Codec) (alg s : String) (hlen : s.toList.length % 4 = 1) :
+    fromBase64 (c.env alg) s = .err .decoding := by
+  have hd : B64.dec s.toList = none := by
+    cases h : B64.dec s.toList with
+    | none => rfl
+    | some bs => exact absurd hlen (B64.dec_length s.toList bs h)
+  have : (c.env alg).decodeDisc s = none := by simp [Codec.env, Codec.decodeDisc, hd]
+  simp [fromBase64, this]
+
+/-- **one spelling per disclosure**: two strings that the decoder maps to the same bytes are the same
+string — trailing bits, padding or another alphabet never give a second text for a disclosure, so a
+disclosure's digest (taken over the text) is determined by the bytes it decodes to. -/
+theorem C12_one_spelling (s t : String) (bs : List UInt8) (hs : B64.dec s.toList = some bs)
+    (ht : B64.dec t.toList = some bs) : s = t :=
+  String.toList_injective (B64.dec_injective s.toList t.toList bs hs ht)
+
+example : B64.dec "QQ".toList = some [65] ∧ B64.dec "QR".toList = none ∧ B64.dec "QQ==".toList = none ∧
+    B64.dec "Q".toList = none := by decide
